@@ -122,6 +122,19 @@ func init() {
 		return out
 	})
 	wrap("C09", func(t string, s int64) []Case { return overrunCases(t, s) })
+	wrap("C14", func(t string, s int64) []Case {
+		// raw-server deviations on which the caller's own side fails the call: nothing of it may stay
+		var out []Case
+		for _, c := range base["C09"](t, s) {
+			if c.Family == "rawsrv" {
+				switch c.S["dev"] {
+				case "data-plus1", "data-plus1-noclose", "envelope-inside", "envelope-inside-noclose", "size-minus1", "dup-msg", "drop-msg-first", "two-responses", "big-chunk":
+					out = append(out, c)
+				}
+			}
+		}
+		return out
+	})
 	wrap("C15", func(t string, s int64) []Case {
 		// bubble families with many concurrent starters, under the race detector
 		out := only(base["C08"](t, s), "idstorm", 4)
